@@ -120,11 +120,38 @@ def observe_case(spec):
                         B = pb.parse(data)
                 except Exception:
                     continue
-                toks, nodes = flatten(A, B, data)
-                case['runs'].append({'n': len(text), 'M': [], 'NL': L.nl_offsets(data), 'a': 0, 'text': json.dumps(text), 'mode': 'tree',
-                                     'cfg': cfgname, 'toks': toks, 'among': [[]], 'err': -1, 'ecls': '', 'eline': 0, 'ecol': 0,
-                                     'basicacc': False, 'ctxacc': False, 'same': False, 'overlap': False,
-                                     'dyn': 'dynamic' in lexer, 'nodes': nodes})
+                results = [(cfgname, A, B)]
+                if parser == 'lalr':
+                    # the same parse taken through the interactive parser, with a fork (copy / as_immutable) after k tokens:
+                    # the fork goes on lexing from a copied lexer state, and its result is a parse result like any other
+                    k = (len(text) * 7 + len(case['runs'])) % 7
+                    try:
+                        with O.budget(20):
+                            forks = []
+                            for pp in (pa, pb):
+                                ip = pp.parse_interactive(data)
+                                n = 0
+                                if k:
+                                    for tok in ip.lexer_thread.lex(ip.parser_state):
+                                        ip.feed_token(tok)
+                                        n += 1
+                                        if n == k:
+                                            break
+                                c = ip.copy() if k % 2 else ip.as_immutable().as_mutable()
+                                if (k // 2) % 2:
+                                    forks.append(c.resume_parse())
+                                else:
+                                    rest = c.exhaust_lexer()
+                                    forks.append(c.feed_eof(rest[-1] if rest else None))
+                        results.append((cfgname + '+fork', forks[0], forks[1]))
+                    except Exception:
+                        case['fork_failed'] = case.get('fork_failed', 0) + 1
+                for cn, A, B in results:
+                    toks, nodes = flatten(A, B, data)
+                    case['runs'].append({'n': len(text), 'M': [], 'NL': L.nl_offsets(data), 'a': 0, 'text': json.dumps(text), 'mode': 'tree',
+                                         'cfg': cn, 'toks': toks, 'among': [[]], 'err': -1, 'ecls': '', 'eline': 0, 'ecol': 0,
+                                         'basicacc': False, 'ctxacc': False, 'same': False, 'overlap': False,
+                                         'dyn': 'dynamic' in lexer, 'nodes': nodes})
         case['tgtext'] = tg
     return case
 
